@@ -14,7 +14,7 @@ import itertools
 import json
 import os
 
-from mon import refbufr as R
+from mon import refbufr as R, midscan
 from mon.compare import td_of, opsig
 from mon.gen import cases
 from mon.gen.shapes import SHAPES, EdgePolicy
@@ -31,13 +31,14 @@ RULE = ('programs = distinct Table D sequences of master versions >= 19 and loca
         'and uncompressed; histories over caches of size 0,1,2,n.  Non-trivial = the program has a loop or an operator; '
         'distinct by SHA-1 of the message bytes; several data contents per program; table-sensitive pairs through marker / first-order / associated-field forms; `pybufrkit compile` output loaded back and executed')
 RULE += '; added with rounds 10-12: a manager whose caller keeps the handles (cache of one entry) and executes them after other templates were compiled; float replication factors to interpreting vs compiling encoders; twins with another tables root and compilation on'
+RULE += '; mid-scan scenarios (mon/midscan.py) on one compiling decoder with a small cache, each delivered message held against the interpreted decode of the same octets'
 ASSUMPTIONS = ['only templates whose operators are opened and closed within one replication scope are compared (statement\'s proviso; predicate mon/gen/templates.scoped)',
                'marker operators while 204 is in force are not generated (grey, DESIGN 2.3)',
                'exceptions are compared by class', 'data come from R\'s producer; programs R cannot produce data for are counted, not compared']
 BUDGET = {'quick': 50, 'thorough': 700}
 QUOTA = {'quick': 120, 'thorough': 2500}
 KASSIGN = {'quick': 6, 'thorough': 60}
-REQUIRED = {'quick': {'evaluations': 1500, 'decodes_compiled_compared': 1300, 'decodes_reloaded_compared': 1300,
+REQUIRED = {'quick': {'mid_scan_results_judged': 300, 'evaluations': 1500, 'decodes_compiled_compared': 1300, 'decodes_reloaded_compared': 1300,
                       'encodes_compared': 1000, 'tabled_programs': 120, 'history_steps': 300, 'evictions_seen': 20,
                       'loop_programs': 500, 'operator_programs': 300, 'marker_programs': 100,
                       'version_collision_steps': 500, 'cli_compile_runs': 32},
@@ -195,6 +196,18 @@ def feature_sig(ids):
     return '+'.join(f) or 'plain'
 
 
+def judge_interpreted(kind, m, base, opts):
+    """C08's oracle for a message delivered / read in the middle of other work on a compiling decoder: the interpreted decode of the
+    same octets on a quiet decoder"""
+    if kind != 'full':
+        return None
+    o = snap(m)
+    if o != base:
+        w = why_differs(o, base)
+        return ('%s-differ-from-interpreted' % w, 'decoded %s differ from the interpreted decode of the same message' % w)
+    return None
+
+
 def compare_message(ctx, decs, encs, b, ids, spec, do_encode=True):
     from pybufrkit.renderer import FlatJsonRenderer
     from pybufrkit.utils import EntityEncoder
@@ -234,6 +247,20 @@ def compare_message(ctx, decs, encs, b, ids, spec, do_encode=True):
             ctx.violate('decode/held-differs/after-other-templates/%s/%s' % (why_differs(o, obase), ofs),
                         'a compiled template whose handle was kept, executed again after the manager had compiled other templates, decodes '
                         'differently from the interpreted decoder', dict(spec, earlier_hex=ob.hex()))
+    # compiled decoding is the interpreted decoding also when its messages are delivered by scans and decodes that are in flight
+    # together on ONE compiling decoder (small caches: templates are compiled, evicted and compiled again between two next() calls)
+    # (only octet strings that ARE one message: some workloads of this check hand the decoders a message followed by other octets)
+    if base[0] == 'ok' and len(b) < 3000 and b[7] >= 2 and int.from_bytes(b[4:7], 'big') == len(b) and b.count(b'BUFR') == 1 and b.count(b'7777') == 1:
+        recent = ctx.__dict__.setdefault('_c08_recent', [])
+        recent.append((b, base))
+        if len(recent) >= 6:
+            ctx.count('mid_scan_blocks')
+            if ctx.counters['mid_scan_blocks'] % (5 if ctx.quick else 2) == 1:
+                from pybufrkit.decoder import Decoder
+                size = ctx.rng.choice([1, 1, 2, 3, 8])
+                midscan.scenarios(ctx, 'compiled', lambda: Decoder(compiled_template_cache_max=size), recent[:3], recent[3:6],
+                                  judge_interpreted, dict(origin='mid-scan', cache_max=size))
+            del recent[:]
     if not do_encode or base[0] != 'ok':
         return
     try:
